@@ -73,6 +73,9 @@ type seqRun struct {
 	writers      map[int]*heldWriter
 	droppedFiles map[string]bool // files that existed when a root was last taken out of the configuration
 	quiet        map[int]bool    // transactions begun and not used yet, which the read-backs leave alone
+	// grandfathered: directories that held more than the new limit when the limit was lowered at a
+	// reopen, with the count they had then
+	grandfathered map[string]int
 }
 
 // heldWriter is a file obtained from Create whose remaining Writes and Close happen only after other
@@ -324,6 +327,28 @@ func (s *seqRun) step(i int, o Op) bool {
 		if err := s.w.Close(); err != nil {
 			s.fail("error-class", "close", fmt.Sprintf("step %d: Close failed: %v", i, err))
 			return false
+		}
+		if o.Pre == 1 && len(s.w.Roots) > 1 {
+			// the same roots, listed in another order
+			s.w.Reversed = !s.w.Reversed
+			s.probes["reopen-with-the-roots-in-another-order"]++
+		}
+		if o.Size > 0 && uint64(o.Size) != s.w.Spec.MaxDirCount {
+			// the database is opened again with another directory limit
+			newLimit := o.Size
+			if newLimit < 100 {
+				newLimit = 100
+			}
+			if _, dirs, _ := s.w.walkRoots(); dirs != nil {
+				s.grandfathered = map[string]int{}
+				for d, n := range dirs {
+					if n > newLimit {
+						s.grandfathered[d] = n
+					}
+				}
+			}
+			s.w.Spec.MaxDirCount = uint64(o.Size)
+			s.probes["reopen-with-another-directory-limit"]++
 		}
 		if err := s.w.Open(); err != nil {
 			s.fail("reopen-differs", "open", fmt.Sprintf("step %d: Open after Close failed: %v", i, err))
